@@ -126,7 +126,13 @@ class Rendered:
         self.lines = []          # physical lines (no newline)
         self.items = []          # expected statement items, in order
         self.comments = []       # expected non-empty comment texts (stripped), in source order
+        self.comment_lines = []  # the physical line each of them is on
         self.features = {}
+
+    def add_comment(self, text, pending=False):
+        """pending: the comment is part of a line that has not been appended yet."""
+        self.comments.append(text)
+        self.comment_lines.append(len(self.lines) + (1 if pending else 0))
 
     def feat(self, name):
         self.features[name] = self.features.get(name, 0) + 1
@@ -156,7 +162,7 @@ def render_free(stmts, r, opts=None):
         while r.random() < o["comments"]:
             c = r.choice(COMMENTS)
             out.lines.append(" " * r.randrange(0, 5) + c)
-            out.comments.append(c.strip())
+            out.add_comment(c.strip())
             out.feat("comment_line")
         if r.random() < o["blank"]:
             out.lines.append("" if r.random() < 0.5 else "   ")
@@ -234,12 +240,12 @@ def render_free(stmts, r, opts=None):
                 if kind == "tok" and r.random() < o["trail"]:
                     c = r.choice(COMMENTS)
                     line += " " + c
-                    out.comments.append(c.strip())
+                    out.add_comment(c.strip(), pending=True)
                     out.feat("trail_on_cont")
             elif r.random() < o["trail"]:
                 c = r.choice(COMMENTS)
                 line += " " + c
-                out.comments.append(c.strip())
+                out.add_comment(c.strip(), pending=True)
                 out.feat("trailing_comment")
             out.lines.append(line)
             last = len(out.lines)
@@ -248,7 +254,7 @@ def render_free(stmts, r, opts=None):
                 if r.random() < 0.6:
                     c = r.choice(COMMENTS)
                     out.lines.append(" " * r.randrange(0, 6) + c)
-                    out.comments.append(c.strip())
+                    out.add_comment(c.strip())
                     out.feat("comment_in_cont")
                 else:
                     out.lines.append("")
@@ -274,7 +280,7 @@ def render_fixed(stmts, r, opts=None):
             body = r.choice(["a comment", "", " it's", " x = 1", "$omp parallel", " ; & x"])
             c = r.choice(["C", "c", "*", "!"]) + body
             out.lines.append(c)
-            out.comments.append(c.strip())
+            out.add_comment(c.strip())
             out.feat("comment_line")
         if r.random() < o["cpp"]:
             d = r.choice(["#define FOO 1", "#ifdef FOO", "#endif", "#undef FOO"])
@@ -392,7 +398,7 @@ def render_fixed(stmts, r, opts=None):
             if si == len(segs) - 1 and r.random() < o["trail"] and "'" not in seg and '"' not in seg:
                 c = "! trailing"
                 line = line + " " + c
-                out.comments.append(c)
+                out.add_comment(c, pending=True)
                 out.feat("trailing_comment")
                 trailing = True
             del trailing
@@ -402,7 +408,7 @@ def render_fixed(stmts, r, opts=None):
                 body = r.choice(["between", "", " x"])
                 c = r.choice(["C", "c", "*", "!"]) + body
                 out.lines.append(c)
-                out.comments.append(c.strip())
+                out.add_comment(c.strip())
                 out.feat("comment_in_cont")
         if len(segs) >= 3 and any(True for _ in lit_spans):
             out.feat("long_stmt_with_literal")
